@@ -53,6 +53,30 @@ def finite_instance_check(smt2, n=3, timeout_ms=20000):
     # z3 objects of a non-default context: rebuild IntVal in that context
     cache = {}
     t = time.time()
+    # ground terms of array sort occurring in the problem: instantiation candidates for axioms quantified over arrays (SUM, ...)
+    ground = {}
+    seen = set()
+
+    def collect(e, bound):
+        k = (e.get_id(), bound)
+        if k in seen:
+            return
+        seen.add(k)
+        if z3.is_quantifier(e):
+            if e.is_lambda() and not bound and not _has_var(e.body()) is False:
+                pass
+            collect(e.body(), True)
+            if e.is_lambda() and not bound:
+                ground.setdefault(e.sort().sexpr(), {})[e.get_id()] = e
+            return
+        if z3.is_app(e):
+            for c in e.children():
+                collect(c, bound)
+            if not bound and isinstance(e.sort(), z3.ArraySortRef) and not _has_var(e):
+                ground.setdefault(e.sort().sexpr(), {})[e.get_id()] = e
+    for a in s0.assertions():
+        collect(a, False)
+    _GROUND[id(ctx)] = {k: list(v.values())[:6] for k, v in ground.items()}
 
     def ex(e):
         return _expand_ctx(e, dom, cache, ctx)
@@ -68,6 +92,17 @@ def finite_instance_check(smt2, n=3, timeout_ms=20000):
     if r == z3.sat:
         model = str(s.model())[:8000]
     return str(r), time.time() - t, model
+
+
+_GROUND = {}
+
+
+def _has_var(e):
+    if z3.is_var(e):
+        return True
+    if z3.is_quantifier(e):
+        return False
+    return any(_has_var(c) for c in e.children()) if z3.is_app(e) else False
 
 
 def _expand_ctx(e, dom, cache, ctx):
@@ -87,7 +122,22 @@ def _expand_ctx(e, dom, cache, ctx):
                 parts.append(_expand_ctx(inst, dom, cache, ctx))
             r = z3.And(parts, ctx) if e.is_forall() else z3.Or(parts, ctx)
         else:
-            r = z3.BoolVal(True, ctx) if e.is_forall() else z3.BoolVal(False, ctx)
+            # mixed quantifier (arrays and integers): instantiate array variables with the ground array terms of the problem
+            g = _GROUND.get(id(ctx), {})
+            cands = []
+            for srt in sorts:
+                if srt == z3.IntSort(ctx):
+                    cands.append([z3.IntVal(v, ctx) for v in dom])
+                else:
+                    cands.append(g.get(srt.sexpr(), []))
+            if e.is_forall() and all(cands) and len(list(itertools.islice(itertools.product(*cands), 3000))) < 3000:
+                parts = []
+                for vals in itertools.product(*cands):
+                    inst = z3.substitute_vars(body, *reversed(list(vals)))
+                    parts.append(_expand_ctx(inst, dom, cache, ctx))
+                r = z3.And(parts, ctx)
+            else:
+                r = z3.BoolVal(True, ctx) if e.is_forall() else z3.BoolVal(False, ctx)
         cache[k] = r
         return r
     if z3.is_app(e) and e.num_args() > 0:
